@@ -89,18 +89,33 @@ def simulate(prop, seed, tier="quick", faults=False, max_ops=None):
     return result_of(world, ops, viol, seed, sw, time.perf_counter() - t0)
 
 
-def replay(prop, ops):
+def replay(prop, ops, canaries=False):
     """Execute a recorded op list; never consults a PRNG."""
     t0 = time.perf_counter()
     world = World(world_cfg(prop))
+    if canaries and _CANARY is None:
+        check_canaries(world)
     viol = None
     try:
         for op in ops:
             world.exec_op(op)
         world.finish()
+        if canaries:
+            check_canaries(world)
     except Violation as v:
         viol = v
     return result_of(world, ops, viol, None, None, time.perf_counter() - t0)
+
+
+def simulate_strat(prop, family, index):
+    """One stratified run: the index is decoded into a cell of the family's
+    product space (dst/strat.py) and the resulting op list is executed."""
+    from . import strat
+    ops, label = strat.plan(family, index)
+    r = replay(prop, ops, canaries=True)
+    r["seed"] = int(index)
+    r["swarm"] = {"family": family, "index": int(index), "label": label}
+    return r
 
 
 def result_of(world, ops, viol, seed, sw, wall):
